@@ -303,3 +303,28 @@ func H_C10_huge_index() {
 	verifAssert(gp, "GetTF panics for an index >= count")
 	verifReach("end")
 }
+
+// index segments that start with digits and go on with other characters are non-numeric segments
+func H_C10_index_with_trailing_characters() {
+	l := NewList(NewList(1, 2), NewObject("k", 3), 4, 5)
+	c := nondetByte()
+	verifAssume(verifAnd(c >= 0x21, c < 0x7f))
+	verifAssume(verifOr(c < '0', c > '9'))
+	verifAssume(verifAnd(verifAnd(c != '.', c != '#'), c != '_'))
+	var p string
+	switch nondetIntRange(0, 3) {
+	case 0:
+		p = "#1" + string([]byte{c})
+	case 1:
+		p = "#0#1" + string([]byte{c})
+	case 2:
+		p = "#0" + string([]byte{c}) + "#1"
+	default:
+		p = "#1" + string([]byte{c}) + ".k"
+	}
+	ty, tp := hTypeOfTFAny(l, p)
+	verifAssert(!tp && ty == TypeUndefined, "TypeOfTF of a path with a non-numeric index segment is Undefined")
+	_, gp := hGetTFAny(l, p)
+	verifAssert(gp, "GetTF of a path with a non-numeric index segment panics")
+	verifReach("end")
+}
